@@ -190,3 +190,36 @@ def run_iflet_else(prog, tier, repo):
                         res.ok(key, b.loc(t[7]), 'else-branch visited at the scope depth of the whole if-else')
     res.floor('else-branch visits in the scope analysis', n, 2)
     return [res]
+
+
+def run_counter_sync(prog, tier, repo):
+    """COUNTER-SYNC (C02): a temp-name counter handed to the parallel passes is synchronised back into the heap on every path
+    before the next counter is created or the function returns; otherwise the next round restarts at the same id and two
+    different temporaries share one name."""
+    res = RuleResult('COUNTER-SYNC', 'C02: optimisation rounds never reuse a temporary name - every create_temp_counter() is '
+                     'paired with sync_temp_counter() of that counter on every path')
+    n = 0
+    for b in sorted(prog.bodies.values(), key=lambda x: x.name):
+        if b.crate not in ('samlang_optimization', 'samlang_compiler'):
+            continue
+        creates = call_sites(b, lambda nm: nm.endswith('Heap::create_temp_counter'))
+        if not creates:
+            continue
+        cfg = cfg_of(b)
+        syncs = call_sites(b, lambda nm: nm.endswith('Heap::sync_temp_counter'))
+        create_blocks = {bi for bi, _ in creates}
+        for cb, ct in creates:
+            n += 1
+            key = f'counter:{b.name}'
+            mine = [sb for sb, st in syncs if len(st[3]) > 1 and operand_root(b, st[3][1])[0] == ct[4].local]
+            ends = set(cfg.exits) | create_blocks
+            start = ct[5]
+            reach = cfg.reachable(start, removed_nodes=mine) if start is not None else set()
+            if not mine or (start not in mine and (reach & ends)):
+                res.violation(key, b.loc(ct[7]), f'{b.name}: a path from create_temp_counter() reaches the next round (or the return) '
+                              f'without sync_temp_counter() of that counter: the following counter starts at an id that was '
+                              f'already handed out, so two live temporaries can get the same name and one overwrites the other')
+            else:
+                res.ok(key, b.loc(ct[7]), 'counter synchronised into the heap on every path before the next counter or return')
+    res.floor('temp counters created', n, 2)
+    return [res]
